@@ -43,7 +43,10 @@ Inductive fate :=
 | FBadMessage                (* the envelope's message is not a {query, variables} object *)
 | FRejected (e : err)        (* Parse or PrepareQuery fails with e *)
 | FRuns (r : result)         (* accepted; the first computation returns r *)
-| FCanceled.                 (* accepted; the first computation ends with context.Canceled as its cause *)
+| FCanceled.                 (* accepted; the computation's own context is cancelled (unsubscribe, connection
+                                gone) and its error's cause is context.Canceled.  As repaired (patches/C16-fix-1):
+                                a resolver that returns context.Canceled of a call of its own while the
+                                subscription is alive is [FRuns (RErr e)] like any failing resolver *)
 
 Inductive inmsg :=
 | MSubscribe (id : string) (f : fate)
